@@ -25,6 +25,8 @@ def run(ctx) -> None:
     jsonrules.rule_K3(ctx)
     jsonrules.rule_J1(ctx)
     jsonrules.rule_J6(ctx)
+    ctx.rules_run += ["J8"]
+    jsonrules.rule_J8(ctx)      # an enum number without a member is emitted as the number (the reference reads null as 0)
     from .c15 import rule_Q7
     ctx.rules_run.append("Q7")
     rule_Q7(ctx)                # RFC 3339 text: four-digit year over the whole valid range
